@@ -33,9 +33,18 @@ def make_config(prop, rng, tier):
 # the PRNG seam
 # ---------------------------------------------------------------------------
 
-class SimRandom:
-    """Stands in for the `random` module inside discopy.grammar.cfg."""
+import random as _stdrandom
+
+
+class SimRandom(_stdrandom.Random):
+    """Stands in for the `random` module inside discopy.grammar.cfg.  It is a
+    random.Random whose two primitives, random() and getrandbits(), read the
+    next recorded decision, so every derived method (shuffle, choice, sample,
+    randrange, ...) is a pure function of the decision list; seed() is recorded
+    and ignored; Random(...) hands out the same object, so that private
+    generator instances are owned by the simulator too."""
     def __init__(self):
+        super().__init__(0)
         self.decisions, self.k = [0], 0
         self.shuffles = 0
         self.seeds = []
@@ -43,22 +52,31 @@ class SimRandom:
     def load(self, decisions):
         self.decisions, self.k = list(decisions) or [0], 0
 
-    def seed(self, value=None):
-        self.seeds.append(value)          # recorded and ignored
-
-    def shuffle(self, lst):
-        self.shuffles += 1
-        n = len(lst)
+    def _next(self):
         d = self.decisions[self.k % len(self.decisions)]
         self.k += 1
-        items, out = list(lst), []
-        while items:                      # Lehmer code of d
-            d, r = divmod(d, len(items))
-            out.append(items.pop(r))
-        lst[:] = out
+        self.shuffles += 1
+        return d
 
-    def __getattr__(self, name):
-        raise HarnessError("cfg used random.%s, which the simulator does not own" % name)
+    def seed(self, value=None, version=2):
+        if hasattr(self, "seeds"):
+            self.seeds.append(value)          # recorded and ignored
+
+    def random(self):
+        return (self._next() % 65536) / 65536.0
+
+    def getrandbits(self, k):
+        out, got = 0, 0
+        while got < k:
+            out = (out << 16) | (self._next() % 65536)
+            got += 16
+        return out >> (got - k)
+
+    def Random(self, *args):
+        return self
+
+    def SystemRandom(self, *args):
+        return self
 
 
 # ---------------------------------------------------------------------------
@@ -280,6 +298,8 @@ class World(BaseWorld):
             t["status"] = "dead"
             self.note("generate_budget_exceeded")
             return "budget"
+        except HarnessError:
+            raise
         except Exception as err:
             t["status"] = "dead"
             raise self.vio("generate-exception", "CFG.generate raised %s: %s" % (
